@@ -12,6 +12,7 @@ import (
 	"regexp"
 	"strconv"
 	"strings"
+	"syscall"
 	"time"
 )
 
@@ -192,4 +193,15 @@ func Finish(e Evidence, vs []Viol, t0 time.Time) int {
 		return 1
 	}
 	return 0
+}
+
+// RealNow is the wall clock even inside a testing/synctest bubble (where
+// time.Now is virtual): wall-clock budgets of explorations that run inside a
+// bubble must use it.
+func RealNow() time.Time {
+	var tv syscall.Timeval
+	if err := syscall.Gettimeofday(&tv); err != nil {
+		return time.Now()
+	}
+	return time.Unix(tv.Sec, tv.Usec*1000)
 }
